@@ -43,7 +43,7 @@ func idFromBig(v *big.Int) id62.UUID {
 
 func runC20(cfg *vh.Config) error {
 	res := vh.NewResult("C20", cfg.Seed)
-	res.Rule = "identifiers: uniform 128-bit, all-zero, all-one, every single bit, leading-zero-byte runs, 62^k and 62^k±1, 2^k-1; parse strings: renderings, signed, underscore, non-ASCII, lengths 0-40, 23+ chars around 2^128, leading zeros; non-trivial = distinct input other than the all-zero id / empty string"
+	res.Rule = "identifiers: uniform 128-bit, all-zero, all-one, every single bit, leading-zero-byte runs, 62^k and 62^k±1, 2^k-1; parse strings: renderings, signed, underscore, non-ASCII, lengths 0-40, 23+ chars around 2^128, leading zeros; hash histories: sequences of NewHash calls over families of tuples that collide under naive joining (separators inside parts, re-cut concatenations), each call compared with SHA-1 of the plain concatenation; emitted patterns: key:id62 in every qualifier form (plain, !, ?, required/optional attribute, array, map, list rules), alone and in random subsets, compiled by the real compiler, validation pattern compared with id62.PatternString; non-trivial = distinct input other than the all-zero id / empty string"
 	cf := &vh.CasesFile{
 		Header: "From Coq Require Import String List NArith.\nFrom J5V.model Require Import Id62 Id62Corr.",
 		Type:   "c20case",
@@ -251,6 +251,11 @@ func runC20(cfg *vh.Config) error {
 			res.Cases = append(res.Cases, vh.CaseRec{Case: caseNo, Stream: "hash", Input: fmt.Sprintf("%q %q", ns, ins), Impl: fmt.Sprintf("%x", a[:])})
 		}
 		caseNo++
+	}
+
+	runHashHistories(cfg, r.Fork("hash-histories"), res, cf, distinct, &caseNo)
+	if err := runEmittedPatterns(cfg, r.Fork("emitted-patterns"), res, cf, distinct, &caseNo); err != nil {
+		return err
 	}
 
 	res.Evaluations = caseNo
